@@ -271,7 +271,7 @@ theorem c05_message_needs_target_line (evs : List Ev) (errText : Nat → Str) (e
     simp only [msgTrace, h, joinNl]
     have hl : splitLines (String.ofList ([] : Str)).toList = [[]] := by simp [splitLines]
     simp only [hl]
-    split <;> simp [afterLabel, afterLabel.go, isPrefix]
+    split <;> simp [clause1, afterLabel, isPrefix]
   simp [checkMessageC05, hc]
 
 /-- the message of `glom({'a': 1}, ('a', f))`, `f` raising `KeyError('k')`, before that repair -/
